@@ -13,6 +13,7 @@ int64_t  __vf_now(void);                  // steady clock reading (ticks)
 uint64_t __vf_random(uint64_t lo, uint64_t hi);
 void     __vf_mutex_lock(void* m);
 void     __vf_mutex_unlock(void* m);
+bool     __vf_mutex_try_lock(void* m); // K3: may fail (another thread holds it / spurious failure); elsewhere: succeeds
 void     __vf_lib_write(const void* p);    // a write the library performs that the optimiser may fold away: told to the access monitor (K3), a no-op elsewhere
 }
 
@@ -1389,12 +1390,29 @@ public:
     mutex(const mutex&) = delete;
     void lock() { __vf_mutex_lock(this); }
     void unlock() { __vf_mutex_unlock(this); }
+    bool try_lock() { return __vf_mutex_try_lock(this); }
 };
+struct defer_lock_t { explicit defer_lock_t() = default; };
+struct try_to_lock_t { explicit try_to_lock_t() = default; };
+struct adopt_lock_t { explicit adopt_lock_t() = default; };
+inline constexpr defer_lock_t  defer_lock{};
+inline constexpr try_to_lock_t try_to_lock{};
+inline constexpr adopt_lock_t  adopt_lock{};
 template<class M>
 class unique_lock
 {
 public:
     explicit unique_lock(M& m) : m_m(m), m_owns(true) { m_m.lock(); }
+    unique_lock(M& m, defer_lock_t) : m_m(m), m_owns(false) {}
+    unique_lock(M& m, try_to_lock_t) : m_m(m), m_owns(m.try_lock()) {}
+    unique_lock(M& m, adopt_lock_t) : m_m(m), m_owns(true) {}
+    bool owns_lock() const { return m_owns; }
+    explicit operator bool() const { return m_owns; }
+    bool try_lock()
+    {
+        m_owns = m_m.try_lock();
+        return m_owns;
+    }
     ~unique_lock()
     {
         if (m_owns)
@@ -1432,6 +1450,7 @@ class lock_guard
 {
 public:
     explicit lock_guard(M& m) : m_m(m) { m_m.lock(); }
+    lock_guard(M& m, adopt_lock_t) : m_m(m) {}
     ~lock_guard() { m_m.unlock(); }
     lock_guard(const lock_guard&) = delete;
 
